@@ -840,6 +840,20 @@ macro_rules! render {
             _ => $s.to_string(PostgresQueryBuilder),
         }
     };
+    // the statement is finished the way callers do it: rendered from the builder itself, from `take()`, or from a clone
+    ($d:expr, $s:expr, $fin:expr) => {
+        match $fin % 3 {
+            0 => render!($d, $s),
+            1 => {
+                let t = $s.take();
+                render!($d, t)
+            }
+            _ => {
+                let t = $s.clone();
+                render!($d, t)
+            }
+        }
+    };
 }
 
 impl StmtS {
@@ -864,6 +878,7 @@ impl StmtS {
 
     /// Perform the public builder calls and render with the dialect's query builder.
     pub fn render(&self, d: Dialect) -> String {
+        let fin = crate::runner::fingerprint(self);
         match self {
             StmtS::CreateTable(t) => {
                 let mut s = Table::create();
@@ -904,7 +919,7 @@ impl StmtS {
                 if let Some(x) = t.extra {
                     s.extra(if d == Dialect::Mysql { MY_TABLE_EXTRAS[x as usize % 2] } else { PG_TABLE_EXTRAS[x as usize % 2] });
                 }
-                render!(d, s)
+                render!(d, s, fin)
             }
             StmtS::AlterTable { table, opts } => {
                 let mut s = Table::alter();
@@ -920,12 +935,12 @@ impl StmtS {
                         AltS::DropFk(n) => s.drop_foreign_key(al(n)),
                     };
                 }
-                render!(d, s)
+                render!(d, s, fin)
             }
             StmtS::RenameTable { from, to } => {
                 let mut s = Table::rename();
                 s.table(from.table_ref(), to.table_ref());
-                render!(d, s)
+                render!(d, s, fin)
             }
             StmtS::DropTable { tables, if_exists, behavior } => {
                 let mut s = Table::drop();
@@ -944,12 +959,12 @@ impl StmtS {
                     }
                     None => {}
                 }
-                render!(d, s)
+                render!(d, s, fin)
             }
             StmtS::Truncate { table } => {
                 let mut s = Table::truncate();
                 s.table(table.table_ref());
-                render!(d, s)
+                render!(d, s, fin)
             }
             StmtS::CreateIndex { index, table, if_not_exists, predicate } => {
                 let mut s = index.build();
@@ -960,7 +975,7 @@ impl StmtS {
                 for p in predicate {
                     s.and_where(p.build(d));
                 }
-                render!(d, s)
+                render!(d, s, fin)
             }
             StmtS::DropIndex { name, table, if_exists } => {
                 let mut s = Index::drop();
@@ -974,8 +989,8 @@ impl StmtS {
                 render!(d, s)
             }
             StmtS::CreateFk(fk) => {
-                let s = fk.build_create();
-                render!(d, s)
+                let mut s = fk.build_create();
+                render!(d, s, fin)
             }
             StmtS::DropFk { name, table } => {
                 let mut s = ForeignKey::drop();
